@@ -1,2 +1,872 @@
-// Package c02 is the check for property C02 (see DESIGN.md section 3).
+// Package c02: outputs are deterministic and independent of scheduling and enumeration order.
+//
+// Eight scenario functions (build bytes, lint text, breaking text, format + diff, file listing,
+// dependency graph, digests, type filter) are executed under every point of a set of owned
+// nondeterminism dimensions, and the output bytes must equal the baseline execution's:
+//   - every execution order of the jobs of every thread.Parallelize call (joborder handler),
+//   - every permutation of storage Walk enumeration (wrapper bucket),
+//   - every Go map iteration start (runtime overlay: seeds 0..63 rotate every map),
+//   - the parallelism grid GOMAXPROCS x thread.SetParallelism,
+//   - permutations of listed modules / rule ids / dependency pins / paths.
 package c02
+
+import (
+	"bytes"
+	"context"
+	"encoding/json"
+	"fmt"
+	"os"
+	"os/exec"
+	"runtime"
+	"sort"
+	"strings"
+	"sync"
+	"time"
+
+	"github.com/bufbuild/buf/private/buf/bufformat"
+	"github.com/bufbuild/buf/private/bufpkg/bufcheck"
+	"github.com/bufbuild/buf/private/bufpkg/bufimage"
+	"github.com/bufbuild/buf/private/bufpkg/bufimage/bufimageutil"
+	"github.com/bufbuild/buf/private/bufpkg/bufmodule"
+	"github.com/bufbuild/buf/private/bufpkg/bufmodule/bufmoduletesting"
+	"github.com/bufbuild/buf/private/bufpkg/bufparse"
+	"github.com/bufbuild/buf/private/pkg/protoencoding"
+	"github.com/bufbuild/buf/private/pkg/storage"
+	"github.com/bufbuild/buf/private/pkg/thread"
+	"github.com/bufbuild/buf/private/pkg/uuidutil"
+	"github.com/bufbuild/bufverif/internal/bufx"
+	"github.com/bufbuild/bufverif/internal/enum"
+	"github.com/bufbuild/bufverif/internal/evid"
+	"github.com/bufbuild/bufverif/internal/hook"
+	"github.com/bufbuild/bufverif/internal/joborder"
+	"github.com/google/uuid"
+)
+
+func init() {
+	evid.Register(&evid.Check{ID: "C02", Level: "exploration", Run: run, QuickBudget: 150 * time.Second, ThoroughBudget: 20 * time.Minute})
+	evid.RegisterWorker("c02", worker)
+}
+
+// ---- fixtures ----
+
+func filler(n int) map[string]string {
+	out := map[string]string{}
+	for i := 1; i <= n; i++ {
+		out[fmt.Sprintf("proto/fill/v1/f%02d.proto", i)] = fmt.Sprintf("syntax = \"proto3\";\npackage fill.v1;\nmessage fill_%02d { string BadField = 1; }\n", i)
+	}
+	return out
+}
+
+// workspace returns the main v2 workspace. variant permutes the listing order of modules and rule ids.
+func workspace(variant int, edited bool) map[string]string {
+	mods := []string{"  - path: proto\n    name: buf.build/acme/main\n", "  - path: vendor\n    name: buf.build/acme/ext\n"}
+	lintUse := []string{"STANDARD", "COMMENTS", "RPC_NO_CLIENT_STREAMING"}
+	breakingUse := []string{"FILE", "WIRE_JSON"}
+	if variant&1 != 0 {
+		mods[0], mods[1] = mods[1], mods[0]
+	}
+	if variant&2 != 0 {
+		lintUse = []string{"RPC_NO_CLIENT_STREAMING", "COMMENTS", "STANDARD"}
+		breakingUse = []string{"WIRE_JSON", "FILE"}
+	}
+	yaml := "version: v2\nmodules:\n" + strings.Join(mods, "") + "lint:\n  use:\n"
+	for _, u := range lintUse {
+		yaml += "    - " + u + "\n"
+	}
+	yaml += "breaking:\n  use:\n"
+	for _, u := range breakingUse {
+		yaml += "    - " + u + "\n"
+	}
+	files := map[string]string{
+		"buf.yaml": yaml,
+		"proto/acme/v1/a.proto": `syntax = "proto3";
+package acme.v1;
+import "acme/v1/c.proto";
+import "acme/v1/b.proto";
+import "ext/opt.proto";
+// a_msg has a lower-case name.
+message a_msg {
+  option (ext.mopt) = "x";
+  B b = 1;
+  C c = 2;
+  string BadName = 3 [(ext.fopt) = 7];
+  map<string, B> m = 4;
+}
+enum bad_enum { zero = 0; one = 1; }
+service svc { rpc Do(B) returns (C); rpc Stream(stream B) returns (C); }
+`,
+		"proto/acme/v1/b.proto":    "syntax = \"proto3\";\npackage acme.v1;\nmessage B { int32 x = 1; string y = 2; }\n",
+		"proto/acme/v1/c.proto":    "syntax = \"proto3\";\npackage acme.v1;\nmessage C { oneof o { int32 a = 1; string s = 2; } }\n",
+		"proto/acme/v2/pub.proto":  "syntax = \"proto3\";\npackage acme.v2;\nimport public \"acme/v1/c.proto\";\nimport public \"acme/v1/b.proto\";\n",
+		"proto/acme/v2/main.proto": "syntax = \"proto3\";\npackage acme.v2;\nimport \"acme/v2/pub.proto\";\nmessage Main { acme.v1.B b = 1; acme.v1.C c = 2; Other o = 3; }\nmessage Other { int64 v = 1; }\n",
+		"vendor/ext/opt.proto": `syntax = "proto2";
+package ext;
+import "google/protobuf/descriptor.proto";
+extend google.protobuf.MessageOptions { optional string mopt = 50001; }
+extend google.protobuf.FieldOptions { optional int32 fopt = 50002; }
+message Ext { extensions 100 to 200; }
+extend Ext { optional int32 e1 = 100; optional string e2 = 101; }
+`,
+	}
+	for p, c := range filler(12) {
+		files[p] = c
+	}
+	if edited {
+		// the older version for breaking: things that the current version "removed" or "changed"
+		files["proto/acme/v1/b.proto"] = "syntax = \"proto3\";\npackage acme.v1;\nmessage B { int64 x = 1; string y = 2; bool gone = 3; }\nmessage Removed {}\n"
+		files["proto/acme/v1/c.proto"] = "syntax = \"proto3\";\npackage acme.v1;\nmessage C { oneof o { int32 a = 1; string s = 2; } int32 z = 9; }\nenum GoneEnum { GONE_ENUM_UNSPECIFIED = 0; }\n"
+		files["proto/acme/v2/main.proto"] = "syntax = \"proto3\";\npackage acme.v2;\nimport \"acme/v2/pub.proto\";\nmessage Main { acme.v1.B b = 1; acme.v1.C c = 2; Other o = 3; string dropped = 4; }\nmessage Other { int32 v = 1; }\n"
+		files["proto/fill/v1/f03.proto"] = "syntax = \"proto3\";\npackage fill.v1;\nmessage fill_03 { string BadField = 1; int32 was_here = 2; }\n"
+		files["proto/fill/v1/f09.proto"] = "syntax = \"proto3\";\npackage fill.v1;\nmessage fill_09 { bytes BadField = 1; }\n"
+	}
+	return files
+}
+
+// Env carries the per-execution input perturbations.
+type Env struct {
+	Wrap    func(storage.ReadBucket) storage.ReadBucket
+	Variant int
+}
+
+func (e *Env) bucket(files map[string]string) storage.ReadBucket {
+	b := bufx.MemBucket(files)
+	if e.Wrap != nil {
+		return e.Wrap(b)
+	}
+	return b
+}
+
+// Scenario is one output function.
+type Scenario struct {
+	Name     string
+	Variants int // number of listing-order variants (>=1)
+	Walks    bool
+	Run      func(ctx context.Context, e *Env) ([]byte, error)
+}
+
+func buildImage(ctx context.Context, e *Env, edited bool) (bufimage.Image, error) {
+	ws, err := bufx.Workspace(ctx, e.bucket(workspace(e.Variant, edited)), ".", nil, nil, bufx.NopProviders)
+	if err != nil {
+		return nil, err
+	}
+	return bufx.BuildWorkspaceImage(ctx, ws)
+}
+
+func marshalImage(image bufimage.Image) ([]byte, error) {
+	p, err := bufimage.ImageToProtoImage(image)
+	if err != nil {
+		return nil, err
+	}
+	return protoencoding.NewWireMarshaler().Marshal(p)
+}
+
+func annotationText(anns []bufx.Annotation) []byte {
+	var b bytes.Buffer
+	for _, a := range anns {
+		fmt.Fprintf(&b, "%s:%d:%d:%d:%d:%s:%s\n", a.Path, a.StartLine, a.StartCol, a.EndLine, a.EndCol, a.Type, a.Message)
+	}
+	return b.Bytes()
+}
+
+func scenarios() []Scenario {
+	return []Scenario{
+		{Name: "build", Variants: 4, Walks: true, Run: func(ctx context.Context, e *Env) ([]byte, error) {
+			img, err := buildImage(ctx, e, false)
+			if err != nil {
+				return nil, err
+			}
+			return marshalImage(img)
+		}},
+		{Name: "lint", Variants: 4, Walks: true, Run: func(ctx context.Context, e *Env) ([]byte, error) {
+			files := workspace(e.Variant, false)
+			img, err := buildImage(ctx, e, false)
+			if err != nil {
+				return nil, err
+			}
+			y, err := bufx.ReadBufYAML(files["buf.yaml"])
+			if err != nil {
+				return nil, err
+			}
+			anns, err := bufx.Lint(ctx, y.ModuleConfigs()[0].LintConfig(), img)
+			if err != nil {
+				return nil, err
+			}
+			if len(anns) < 10 {
+				return nil, fmt.Errorf("vacuous lint scenario: %d annotations", len(anns))
+			}
+			return annotationText(anns), nil
+		}},
+		{Name: "breaking", Variants: 4, Walks: true, Run: func(ctx context.Context, e *Env) ([]byte, error) {
+			files := workspace(e.Variant, false)
+			img, err := buildImage(ctx, e, false)
+			if err != nil {
+				return nil, err
+			}
+			old, err := buildImage(ctx, e, true)
+			if err != nil {
+				return nil, err
+			}
+			y, err := bufx.ReadBufYAML(files["buf.yaml"])
+			if err != nil {
+				return nil, err
+			}
+			anns, err := bufx.Breaking(ctx, y.ModuleConfigs()[0].BreakingConfig(), img, old, bufcheck.BreakingWithExcludeImports())
+			if err != nil {
+				return nil, err
+			}
+			if len(anns) < 5 {
+				return nil, fmt.Errorf("vacuous breaking scenario: %d annotations", len(anns))
+			}
+			return annotationText(anns), nil
+		}},
+		{Name: "format+diff", Variants: 1, Walks: true, Run: func(ctx context.Context, e *Env) ([]byte, error) {
+			files := map[string]string{}
+			for p, c := range workspace(0, false) {
+				if strings.HasSuffix(p, ".proto") && !strings.Contains(p, "fill/v1/f0") {
+					files[strings.TrimPrefix(strings.TrimPrefix(p, "proto/"), "vendor/")] = c
+				}
+			}
+			files["a.proto"] = "syntax = \"proto3\";\nmessage   TopLevel {  int32 a=1; }\n" // a file and a directory sharing a prefix: a.proto vs acme/
+			src := e.bucket(files)
+			formatted, err := bufformat.FormatBucket(ctx, src)
+			if err != nil {
+				return nil, err
+			}
+			snap := map[string]string{}
+			if err := formatted.Walk(ctx, "", func(info storage.ObjectInfo) error {
+				data, err := storage.ReadPath(ctx, formatted, info.Path())
+				snap[info.Path()] = string(data)
+				return err
+			}); err != nil {
+				return nil, err
+			}
+			var out bytes.Buffer
+			for _, p := range bufx.SortedKeys(snap) {
+				fmt.Fprintf(&out, "== %s\n%s", p, snap[p])
+			}
+			diff, err := storage.DiffBytes(ctx, src, formatted, storage.DiffWithSuppressTimestamps())
+			if err != nil {
+				return nil, err
+			}
+			out.WriteString("== diff\n")
+			out.Write(diff)
+			return out.Bytes(), nil
+		}},
+		{Name: "ls-files", Variants: 4, Walks: true, Run: func(ctx context.Context, e *Env) ([]byte, error) {
+			ws, err := bufx.Workspace(ctx, e.bucket(workspace(e.Variant, false)), ".", nil, nil, bufx.NopProviders)
+			if err != nil {
+				return nil, err
+			}
+			infos, err := bufmodule.GetTargetFileInfos(ctx, bufmodule.ModuleSetToModuleReadBucketWithOnlyProtoFiles(ws))
+			if err != nil {
+				return nil, err
+			}
+			var out bytes.Buffer
+			for _, info := range infos {
+				fmt.Fprintf(&out, "%s %s\n", info.Path(), info.ExternalPath())
+			}
+			return out.Bytes(), nil
+		}},
+		{Name: "dep-graph+digests", Variants: 6, Walks: false, Run: depGraphScenario},
+		{Name: "module-digests", Variants: 4, Walks: true, Run: func(ctx context.Context, e *Env) ([]byte, error) {
+			ws, err := bufx.Workspace(ctx, e.bucket(workspace(e.Variant, false)), ".", nil, nil, bufx.NopProviders)
+			if err != nil {
+				return nil, err
+			}
+			var lines []string
+			for _, m := range ws.Modules() {
+				for _, dt := range []bufmodule.DigestType{bufmodule.DigestTypeB5} {
+					d, err := m.Digest(dt)
+					if err != nil {
+						return nil, err
+					}
+					lines = append(lines, m.OpaqueID()+" "+d.String())
+				}
+			}
+			sort.Strings(lines) // the listing order of modules is an input; digests per module are the output
+			return []byte(strings.Join(lines, "\n")), nil
+		}},
+		{Name: "type-filter", Variants: 4, Walks: true, Run: func(ctx context.Context, e *Env) ([]byte, error) {
+			img, err := buildImage(ctx, e, false)
+			if err != nil {
+				return nil, err
+			}
+			var out bytes.Buffer
+			for _, types := range [][]string{{"acme.v2.Main"}, {"acme.v1.svc"}, {"acme.v1.a_msg", "ext.Ext"}} {
+				filtered, err := bufimageutil.FilterImage(img, bufimageutil.WithIncludeTypes(types...))
+				if err != nil {
+					return nil, err
+				}
+				data, err := marshalImage(filtered)
+				if err != nil {
+					return nil, err
+				}
+				out.Write(data)
+				out.WriteString("\n==\n")
+			}
+			return out.Bytes(), nil
+		}},
+	}
+}
+
+// ---- dependency graph with several pinned commits of one remote module ----
+
+type multiProvider struct {
+	byCommit map[uuid.UUID]bufmoduletesting.OmniProvider
+}
+
+func (m *multiProvider) GetModuleDatasForModuleKeys(ctx context.Context, keys []bufmodule.ModuleKey) ([]bufmodule.ModuleData, error) {
+	var out []bufmodule.ModuleData
+	for _, k := range keys {
+		p, ok := m.byCommit[k.CommitID()]
+		if !ok {
+			return nil, fmt.Errorf("unknown commit %s", k.CommitID())
+		}
+		d, err := p.GetModuleDatasForModuleKeys(ctx, []bufmodule.ModuleKey{k})
+		if err != nil {
+			return nil, err
+		}
+		out = append(out, d...)
+	}
+	return out, nil
+}
+func (m *multiProvider) GetCommitsForModuleKeys(ctx context.Context, keys []bufmodule.ModuleKey) ([]bufmodule.Commit, error) {
+	var out []bufmodule.Commit
+	for _, k := range keys {
+		p, ok := m.byCommit[k.CommitID()]
+		if !ok {
+			return nil, fmt.Errorf("unknown commit %s", k.CommitID())
+		}
+		c, err := p.GetCommitsForModuleKeys(ctx, []bufmodule.ModuleKey{k})
+		if err != nil {
+			return nil, err
+		}
+		out = append(out, c...)
+	}
+	return out, nil
+}
+func (m *multiProvider) GetCommitsForCommitKeys(ctx context.Context, keys []bufmodule.CommitKey) ([]bufmodule.Commit, error) {
+	var out []bufmodule.Commit
+	for _, k := range keys {
+		p, ok := m.byCommit[k.CommitID()]
+		if !ok {
+			return nil, fmt.Errorf("unknown commit %s", k.CommitID())
+		}
+		c, err := p.GetCommitsForCommitKeys(ctx, []bufmodule.CommitKey{k})
+		if err != nil {
+			return nil, err
+		}
+		out = append(out, c...)
+	}
+	return out, nil
+}
+
+var pinOrders = [][]int{{0, 1, 2, 3}, {3, 2, 1, 0}, {1, 3, 0, 2}, {2, 0, 3, 1}, {0, 3, 1, 2}, {3, 0, 2, 1}}
+
+func depGraphScenario(ctx context.Context, e *Env) ([]byte, error) {
+	base := time.Date(2024, 1, 1, 0, 0, 0, 0, time.UTC)
+	mp := &multiProvider{byCommit: map[uuid.UUID]bufmoduletesting.OmniProvider{}}
+	ref, err := bufparse.NewRef("buf.build", "acme", "dep", "")
+	if err != nil {
+		return nil, err
+	}
+	ref2, err := bufparse.NewRef("buf.build", "acme", "other", "")
+	if err != nil {
+		return nil, err
+	}
+	var keys []bufmodule.ModuleKey
+	for i := 0; i < 4; i++ {
+		id := uuid.MustParse(fmt.Sprintf("00000000-0000-4000-8000-0000000000d%d", i))
+		p, err := bufmoduletesting.NewOmniProvider(bufmoduletesting.ModuleData{
+			Name: "buf.build/acme/dep", CommitID: id, CreateTime: base.Add(time.Duration(i) * time.Hour),
+			PathToData: map[string][]byte{"dep.proto": []byte(fmt.Sprintf("syntax = \"proto3\"; package dep; message Dep { string f%d = 1; }", i))},
+		})
+		if err != nil {
+			return nil, err
+		}
+		k, err := p.GetModuleKeysForModuleRefs(ctx, []bufparse.Ref{ref}, bufmodule.DigestTypeB5)
+		if err != nil {
+			return nil, err
+		}
+		keys = append(keys, k[0])
+		mp.byCommit[id] = p
+	}
+	id2 := uuid.MustParse("00000000-0000-4000-8000-0000000000e0")
+	p2, err := bufmoduletesting.NewOmniProvider(bufmoduletesting.ModuleData{
+		Name: "buf.build/acme/other", CommitID: id2, CreateTime: base,
+		PathToData: map[string][]byte{"other.proto": []byte("syntax = \"proto3\"; package other; message Other {}")},
+	})
+	if err != nil {
+		return nil, err
+	}
+	k2, err := p2.GetModuleKeysForModuleRefs(ctx, []bufparse.Ref{ref2}, bufmodule.DigestTypeB5)
+	if err != nil {
+		return nil, err
+	}
+	mp.byCommit[id2] = p2
+	builder := bufmodule.NewModuleSetBuilder(ctx, bufx.Logger, mp, mp)
+	locals := []struct {
+		id    string
+		files map[string]string
+	}{
+		{"local/a", map[string]string{"a.proto": "syntax = \"proto3\"; package a; import \"dep.proto\"; import \"b.proto\"; message A { dep.Dep d = 1; b.B b = 2; }"}},
+		{"local/b", map[string]string{"b.proto": "syntax = \"proto3\"; package b; import \"other.proto\"; message B { other.Other o = 1; }"}},
+	}
+	order := pinOrders[e.Variant%len(pinOrders)]
+	if e.Variant%2 == 1 {
+		locals[0], locals[1] = locals[1], locals[0]
+	}
+	for _, l := range locals {
+		builder.AddLocalModule(bufx.MemBucket(l.files), l.id, true)
+	}
+	for _, i := range order {
+		builder.AddRemoteModule(keys[i], false)
+	}
+	builder.AddRemoteModule(k2[0], false)
+	ms, err := builder.Build()
+	if err != nil {
+		return nil, err
+	}
+	graph, err := bufmodule.ModuleSetToDAG(ms)
+	if err != nil {
+		return nil, err
+	}
+	dot, err := graph.DOTString(func(m bufmodule.Module) string {
+		if m.CommitID() != uuid.Nil {
+			return m.OpaqueID() + ":" + uuidutil.ToDashless(m.CommitID())
+		}
+		return m.OpaqueID()
+	})
+	if err != nil {
+		return nil, err
+	}
+	var lines []string
+	for _, m := range ms.Modules() {
+		d, err := m.Digest(bufmodule.DigestTypeB5)
+		if err != nil {
+			return nil, err
+		}
+		deps, err := m.ModuleDeps()
+		if err != nil {
+			return nil, err
+		}
+		var ds []string
+		for _, dep := range deps {
+			ds = append(ds, fmt.Sprintf("%s(direct=%v)", dep.OpaqueID(), dep.IsDirect()))
+		}
+		lines = append(lines, fmt.Sprintf("%s %s deps=%v", m.OpaqueID(), d, ds))
+	}
+	sort.Strings(lines)
+	img, err := bufimage.BuildImage(ctx, bufx.Logger, bufmodule.ModuleSetToModuleReadBucketWithOnlyProtoFiles(ms))
+	if err != nil {
+		return nil, err
+	}
+	data, err := marshalImage(img)
+	if err != nil {
+		return nil, err
+	}
+	return []byte(dot + "\n" + strings.Join(lines, "\n") + "\n" + fmt.Sprintf("%x", data)), nil
+}
+
+// ---- walk-permuting bucket ----
+
+type permBucket struct {
+	storage.ReadBucket
+	perm func(n int, call int) []int // returns the emission order for a walk of n objects (nil = as is)
+	mu   sync.Mutex
+	call int
+}
+
+func (b *permBucket) Walk(ctx context.Context, prefix string, f func(storage.ObjectInfo) error) error {
+	var infos []storage.ObjectInfo
+	if err := b.ReadBucket.Walk(ctx, prefix, func(info storage.ObjectInfo) error {
+		infos = append(infos, info)
+		return nil
+	}); err != nil {
+		return err
+	}
+	b.mu.Lock()
+	call := b.call
+	b.call++
+	b.mu.Unlock()
+	order := b.perm(len(infos), call)
+	if order == nil {
+		for _, info := range infos {
+			if err := f(info); err != nil {
+				return err
+			}
+		}
+		return nil
+	}
+	for _, i := range order {
+		if err := f(infos[i]); err != nil {
+			return err
+		}
+	}
+	return nil
+}
+
+// WalkPlan names one walk-order perturbation.
+type WalkPlan struct {
+	Kind string `json:"kind"` // reverse | rotate | swap | perm | single-call-reverse
+	K    int    `json:"k"`
+}
+
+func (p WalkPlan) apply(n, call int) []int {
+	id := make([]int, n)
+	for i := range id {
+		id[i] = i
+	}
+	if n < 2 {
+		return id
+	}
+	switch p.Kind {
+	case "reverse":
+		for i, j := 0, n-1; i < j; i, j = i+1, j-1 {
+			id[i], id[j] = id[j], id[i]
+		}
+	case "rotate":
+		k := p.K % n
+		return append(id[k:], id[:k]...)
+	case "swap":
+		k := p.K % (n - 1)
+		id[k], id[k+1] = id[k+1], id[k]
+	case "perm":
+		if n <= 4 {
+			perms := enum.Permutations(n)
+			return perms[p.K%len(perms)]
+		}
+		// for larger walks: the K-th permutation of the first four objects, rest in place
+		perms := enum.Permutations(4)
+		pp := perms[p.K%len(perms)]
+		for i := 0; i < 4; i++ {
+			id[i] = pp[i]
+		}
+	case "single-call-reverse":
+		if call != p.K {
+			return id
+		}
+		for i, j := 0, n-1; i < j; i, j = i+1, j-1 {
+			id[i], id[j] = id[j], id[i]
+		}
+	}
+	return id
+}
+
+func walkPlans(quick bool) []WalkPlan {
+	plans := []WalkPlan{{"reverse", 0}}
+	for k := 1; k <= 5; k++ {
+		plans = append(plans, WalkPlan{"rotate", k})
+	}
+	for k := 0; k < 6; k++ {
+		plans = append(plans, WalkPlan{"swap", k})
+	}
+	for k := 1; k < 24; k++ {
+		plans = append(plans, WalkPlan{"perm", k})
+	}
+	n := 6
+	if !quick {
+		n = 16
+	}
+	for k := 0; k < n; k++ {
+		plans = append(plans, WalkPlan{"single-call-reverse", k})
+	}
+	return plans
+}
+
+// ---- one execution ----
+
+// Exec describes one point of the nondeterminism space.
+type Exec struct {
+	Scenario    string           `json:"scenario"`
+	Dimension   string           `json:"dimension"`
+	Variant     int              `json:"variant,omitempty"`
+	Walk        *WalkPlan        `json:"walk,omitempty"`
+	MapSeed     int              `json:"map_seed,omitempty"`
+	JobPlan     map[string][]int `json:"job_plan,omitempty"`
+	Parallelism int              `json:"parallelism,omitempty"`
+	GOMAXPROCS  int              `json:"gomaxprocs,omitempty"`
+}
+
+type execResult struct {
+	Output []byte
+	Err    string
+	Calls  []joborder.Call
+}
+
+func runExec(sc Scenario, x Exec) execResult {
+	ctx := context.Background()
+	env := &Env{Variant: x.Variant}
+	if x.Walk != nil {
+		plan := *x.Walk
+		env.Wrap = func(b storage.ReadBucket) storage.ReadBucket {
+			return &permBucket{ReadBucket: b, perm: plan.apply}
+		}
+	}
+	if x.Dimension == "map-seed" {
+		setMapSeed(uint64(x.MapSeed), true)
+		defer setMapSeed(0, true)
+	}
+	if x.Parallelism > 0 {
+		prev := thread.Parallelism()
+		thread.SetParallelism(x.Parallelism)
+		defer thread.SetParallelism(prev)
+	}
+	if x.GOMAXPROCS > 0 {
+		prev := runtime.GOMAXPROCS(x.GOMAXPROCS)
+		defer runtime.GOMAXPROCS(prev)
+	}
+	var jh *joborder.Handler
+	if x.Dimension == "job-order" || x.Dimension == "baseline" {
+		jh = joborder.New(x.JobPlan)
+		hook.SetGroupHandler(jh)
+		defer hook.SetGroupHandler(nil)
+	}
+	var res execResult
+	func() {
+		defer func() {
+			if rec := recover(); rec != nil {
+				res.Err = fmt.Sprintf("PANIC: %v", rec)
+			}
+		}()
+		out, err := sc.Run(ctx, env)
+		res.Output = out
+		if err != nil {
+			res.Err = err.Error()
+		}
+	}()
+	if jh != nil {
+		hook.SetGroupHandler(nil)
+		res.Calls = jh.Finish()
+	}
+	return res
+}
+
+type workerViolation struct {
+	Sig  string `json:"sig"`
+	What string `json:"what"`
+	Exec Exec   `json:"exec"`
+}
+
+type workerResult struct {
+	Scenario    string            `json:"scenario"`
+	Executions  int               `json:"executions"`
+	PerDim      map[string]int    `json:"per_dimension"`
+	Distinct    []string          `json:"distinct"`
+	Violations  []workerViolation `json:"violations"`
+	Calls       []string          `json:"parallelize_calls"`
+	Incomplete  []string          `json:"incomplete"`
+	Sample      []Exec            `json:"sample"`
+	OutputBytes int               `json:"output_bytes"`
+	MapSeedLive bool              `json:"map_seed_live"`
+}
+
+func firstDiff(a, b []byte) string {
+	n := min(len(a), len(b))
+	i := 0
+	for i < n && a[i] == b[i] {
+		i++
+	}
+	ctx := func(x []byte) string {
+		lo, hi := max(0, i-30), min(len(x), i+30)
+		return fmt.Sprintf("%q", x[lo:hi])
+	}
+	return fmt.Sprintf("outputs differ at byte %d (lengths %d vs %d): baseline …%s… vs …%s…", i, len(a), len(b), ctx(a), ctx(b))
+}
+
+// exploreScenario enumerates every dimension for one scenario (in this process).
+func exploreScenario(sc Scenario, quick bool, deadline time.Time) workerResult {
+	hook.Install()
+	res := workerResult{Scenario: sc.Name, PerDim: map[string]int{}, MapSeedLive: mapSeedAvailable()}
+	thread.SetParallelism(4)
+	// every execution outside the map-seed dimension runs under seed 0, so that a dependence on map
+	// iteration order shows up in that dimension only, and reproducibly
+	setMapSeed(0, true)
+	base := runExec(sc, Exec{Scenario: sc.Name, Dimension: "baseline"})
+	if base.Err != "" {
+		res.Incomplete = append(res.Incomplete, "baseline execution failed: "+base.Err)
+		return res
+	}
+	again := runExec(sc, Exec{Scenario: sc.Name, Dimension: "baseline"})
+	if !bytes.Equal(base.Output, again.Output) {
+		res.Violations = append(res.Violations, workerViolation{"rerun/" + sc.Name, "two plain runs of the same inputs differ: " + firstDiff(base.Output, again.Output), Exec{Scenario: sc.Name, Dimension: "rerun"}})
+	}
+	res.OutputBytes = len(base.Output)
+	for _, c := range base.Calls {
+		res.Calls = append(res.Calls, fmt.Sprintf("%s jobs=%d", c.Key(), c.Jobs))
+	}
+	try := func(x Exec) {
+		if time.Now().After(deadline) {
+			if len(res.Incomplete) == 0 {
+				res.Incomplete = append(res.Incomplete, "deadline reached in "+sc.Name)
+			}
+			return
+		}
+		r := runExec(sc, x)
+		res.Executions++
+		res.PerDim[x.Dimension]++
+		key, _ := json.Marshal(x)
+		res.Distinct = append(res.Distinct, string(key))
+		if len(res.Sample) < 2 && (x.Dimension == "job-order" || x.Dimension == "walk-order") {
+			res.Sample = append(res.Sample, x)
+		}
+		if r.Err != "" {
+			res.Violations = append(res.Violations, workerViolation{fmt.Sprintf("%s/%s/error", x.Dimension, sc.Name), fmt.Sprintf("scenario %s fails under %s: %s", sc.Name, x.Dimension, r.Err), x})
+			return
+		}
+		if !bytes.Equal(r.Output, base.Output) {
+			res.Violations = append(res.Violations, workerViolation{fmt.Sprintf("%s/%s", x.Dimension, sc.Name), fmt.Sprintf("output of %s depends on %s: %s", sc.Name, x.Dimension, firstDiff(base.Output, r.Output)), x})
+		}
+	}
+	// listing-order variants
+	for v := 1; v < sc.Variants; v++ {
+		try(Exec{Scenario: sc.Name, Dimension: "listing-order", Variant: v})
+	}
+	// walk orders
+	if sc.Walks {
+		for _, wp := range walkPlans(quick) {
+			wp := wp
+			try(Exec{Scenario: sc.Name, Dimension: "walk-order", Walk: &wp})
+		}
+	}
+	// job orders: every call with >= 2 jobs, every permutation (<= 4 jobs) or reverse/rotations/adjacent swaps
+	for _, c := range base.Calls {
+		if c.Jobs < 2 {
+			continue
+		}
+		var perms [][]int
+		if c.Jobs <= 4 {
+			perms = enum.Permutations(c.Jobs)[1:]
+		} else {
+			id := make([]int, c.Jobs)
+			for i := range id {
+				id[i] = i
+			}
+			rev := make([]int, c.Jobs)
+			for i := range rev {
+				rev[i] = c.Jobs - 1 - i
+			}
+			perms = append(perms, rev)
+			for k := 1; k < c.Jobs; k++ {
+				perms = append(perms, append(append([]int(nil), id[k:]...), id[:k]...))
+			}
+			for k := 0; k+1 < c.Jobs; k++ {
+				p := append([]int(nil), id...)
+				p[k], p[k+1] = p[k+1], p[k]
+				perms = append(perms, p)
+			}
+		}
+		for _, p := range perms {
+			try(Exec{Scenario: sc.Name, Dimension: "job-order", JobPlan: map[string][]int{c.Key(): p}})
+		}
+	}
+	// map seeds
+	if mapSeedAvailable() {
+		for seed := 0; seed < 64; seed++ {
+			try(Exec{Scenario: sc.Name, Dimension: "map-seed", MapSeed: seed})
+		}
+	}
+	// parallelism grid
+	for _, gmp := range []int{1, 2, 4, 16} {
+		for _, par := range []int{1, 2, 3, 4, 8, 16} {
+			if quick && !(gmp == 1 || gmp == 16 || par == 2) {
+				continue
+			}
+			try(Exec{Scenario: sc.Name, Dimension: "parallelism-grid", Parallelism: par, GOMAXPROCS: gmp})
+		}
+	}
+	// chunked job orders: parallelism 2 makes bufprotosource split the files into chunks
+	thread.SetParallelism(2)
+	base2 := runExec(sc, Exec{Scenario: sc.Name, Dimension: "baseline"})
+	if base2.Err == "" {
+		if !bytes.Equal(base2.Output, base.Output) {
+			res.Violations = append(res.Violations, workerViolation{"parallelism-grid/" + sc.Name, "output differs at parallelism 2: " + firstDiff(base.Output, base2.Output), Exec{Scenario: sc.Name, Dimension: "parallelism-grid", Parallelism: 2}})
+		}
+		for _, c := range base2.Calls {
+			if c.Jobs < 2 || c.Jobs > 4 {
+				continue
+			}
+			res.Calls = append(res.Calls, fmt.Sprintf("(parallelism 2) %s jobs=%d", c.Key(), c.Jobs))
+			for _, p := range enum.Permutations(c.Jobs)[1:] {
+				try(Exec{Scenario: sc.Name, Dimension: "job-order", Parallelism: 2, JobPlan: map[string][]int{c.Key(): p}})
+			}
+		}
+	}
+	return res
+}
+
+func worker(args []string) int {
+	// args: scenarioIndex quick deadlineUnix
+	var si int
+	var dl int64
+	fmt.Sscan(args[0], &si)
+	quick := args[1] == "true"
+	fmt.Sscan(args[2], &dl)
+	res := exploreScenario(scenarios()[si], quick, time.Unix(dl, 0))
+	b, _ := json.Marshal(res)
+	fmt.Println("RESULT " + string(b))
+	return 0
+}
+
+func run(r *evid.Run) {
+	r.Rule("case = (scenario, dimension, point): scenario in {build bytes, lint text, breaking text, format+diff, file listing, dependency graph+digests+image with 4 pinned commits, module digests, type filter}; dimensions: every order of the jobs of each thread.Parallelize call (all n! for <=4 jobs, else reverse/rotations/adjacent swaps; also at parallelism 2 where bufprotosource chunks files), walk-order perturbations of every storage Walk (reverse, rotations, adjacent swaps, all 24 permutations of the first four objects, single-call reversals), Go map iteration start seeds 0..63 (runtime overlay), GOMAXPROCS x thread parallelism grid, listing-order variants of modules / rule ids / dependency pins; oracle: output bytes equal the baseline execution. Distinct key = the JSON of the case")
+	r.Assume("scheduling inside protocompile's executor and inside bufplugin-go's in-process check server is not controlled (dependencies outside /repo); they are perturbed only through the parallelism grid")
+	r.Assume("map-seed sweep rotates all maps alike (one seed per execution)")
+	self, _ := os.Executable()
+	scs := scenarios()
+	deadline := time.Now().Add(100 * time.Second)
+	if !r.Quick() {
+		deadline = time.Now().Add(15 * time.Minute)
+	}
+	perDim := map[string]int{}
+	calls := map[string][]string{}
+	var mu sync.Mutex
+	seedLive := true
+	r.ParallelFor(len(scs), len(scs), func(i int) {
+		cmd := exec.Command(self, "worker", "c02", fmt.Sprint(i), fmt.Sprint(r.Quick()), fmt.Sprint(deadline.Unix()))
+		cmd.Env = append(os.Environ(), "VERIF_SEED="+fmt.Sprint(r.Seed))
+		out, err := cmd.Output()
+		var res workerResult
+		found := false
+		for _, line := range strings.Split(string(out), "\n") {
+			if strings.HasPrefix(line, "RESULT ") && json.Unmarshal([]byte(line[7:]), &res) == nil {
+				found = true
+			}
+		}
+		if !found {
+			r.Incomplete(fmt.Sprintf("worker for scenario %s failed: %v", scs[i].Name, err))
+			return
+		}
+		mu.Lock()
+		defer mu.Unlock()
+		r.Eval(res.Executions)
+		for _, d := range res.Distinct {
+			r.Distinct(d)
+		}
+		for k, v := range res.PerDim {
+			perDim[k] += v
+		}
+		calls[res.Scenario] = res.Calls
+		for _, s := range res.Sample {
+			r.Sample(s)
+		}
+		for _, inc := range res.Incomplete {
+			r.Incomplete(inc)
+		}
+		if !res.MapSeedLive {
+			seedLive = false
+		}
+		for _, v := range res.Violations {
+			r.Violate(v.Sig, v.What, v.Exec)
+		}
+	})
+	r.Set("executions_per_dimension", perDim)
+	r.Set("parallelize_calls_seen", calls)
+	r.Set("map_seed_overlay_active", seedLive)
+	if !seedLive {
+		r.Incomplete("binary was built without the runtime map-seed overlay: the map-seed dimension was not explored")
+	}
+	if perDim["job-order"] == 0 {
+		r.Incomplete("vacuity: no thread.Parallelize call with >= 2 jobs was seen")
+	}
+}
